@@ -7,7 +7,8 @@ with arbitrary relative delay, receive-queue choice, one worker per queue, pool 
 all index arithmetic is the generated translation of the Go expressions (`Gen.Arith`).
 
 * `C13_full` — the property as stated (all ids, pool changes allowed) — is refuted by the current code:
-  `C13_counterexample` (a link joins between two sends), `C13_counterexample_drop` (a link is lost).
+  `C13_counterexample` (a link joins between two sends), `C13_counterexample_drop` (a link is lost),
+  `C13_counterexample_redial` (a lost link is re-dialed into its slot).
 * `C13_partial` — constant pool, both order bytes non-zero, the pair's sends keep order ⇒ for EVERY
   interleaving of link deliveries and queue workers the pair's messages are routed in send order
   (delivered|pair is a prefix of sent|pair; sequence numbers strictly increase).
@@ -43,6 +44,13 @@ theorem C13_counterexample : ¬ C13_full := by
 theorem C13_counterexample_drop :
     ¬ ((run (init [0, 1, 2] 12) [.send 1 1 true, .drop 0, .send 1 1 true, .deliver 1, .work 2, .deliver 2, .work 2]).delivered.filter (pair 1 1)).Sublist
       ((run (init [0, 1, 2] 12) [.send 1 1 true, .drop 0, .send 1 1 true, .deliver 1, .work 2, .deliver 2, .work 2]).sent.filter (pair 1 1)) := by
+  decide
+
+/-- the same when a lost link is re-dialed into its pool slot: frames still buffered on the old socket can be read by the
+    peer after frames sent on the new one -/
+theorem C13_counterexample_redial :
+    ¬ ((run (init [0, 1] 8) [.send 1 1 true, .redial 0 2, .send 1 1 true, .deliver 2, .work 2, .deliver 0, .work 2]).delivered.filter (pair 1 1)).Sublist
+      ((run (init [0, 1] 8) [.send 1 1 true, .redial 0 2, .send 1 1 true, .deliver 2, .work 2, .deliver 0, .work 2]).sent.filter (pair 1 1)) := by
   decide
 
 /-- D13 repaired (`uint8(id%255) + 1`): the order byte derived from an id is never 0, i.e. an id can no longer
